@@ -507,8 +507,17 @@ func runCase(c *kit.Case) {
 							sig["ka_parked"]++
 						}
 					} else {
+						// Late (the deadline had passed, the sweep had not removed the key yet), but the
+						// broker answered "key exists" and thereby acknowledged the refresh: the key now
+						// lives until this keep-alive's own deadline. (Had the sweep won, the keep-alive
+						// would have found no key and published a new one instead.)
 						chain = false
+						dLo = max(dLo, o.abs+ttl)
 						c.Count("refreshed_after_deadline_before_sweep", 1)
+						if o.onCand {
+							c.Count("keepalive_acknowledged_between_phases", 1)
+							sig["ka_parked_late"]++
+						}
 					}
 				}
 				if tR < cur.tPub+ttl {
@@ -516,7 +525,7 @@ func runCase(c *kit.Case) {
 					return
 				}
 				if tR < dLo {
-					fail("refreshed-key-removed", fmt.Sprintf("key %q of %s (op %d, published +%dms, TTL %dms) was kept alive in time %d time(s) -> deadline +%dms, but removed by expiry at +%dms", key, cc.name, cur.id, cur.tPub-w.t0, ttl, timely, dLo-w.t0, tR-w.t0))
+					fail("refreshed-key-removed", fmt.Sprintf("key %q of %s (op %d, published +%dms, TTL %dms) was kept alive (%d time(s) before its deadline; acknowledged late refreshes count too) -> deadline +%dms, but removed by expiry at +%dms", key, cc.name, cur.id, cur.tPub-w.t0, ttl, timely, dLo-w.t0, tR-w.t0))
 					return
 				}
 				if tR > dHi+lateMarginMs {
@@ -600,18 +609,18 @@ func TestC24(t *testing.T) {
 		ID:    "C24",
 		Level: "exploration",
 		Rule: "Each case runs a standalone MemoryMapBroker (recording handler) in a synctest bubble: 1-2 channels (ephemeral or recoverable, KeyTTL 1.5-4 s), 1-4 keys. A process-wide verif hook at \"mapexpire.betweenPhases\" parks the expiry sweep between its phase 1 (collect) and phase 2 (revalidate+delete) for a PRNG-chosen 0-900 virtual ms (48 pre-drawn windows) and starts up to 3 pre-drawn operations (publish, if_exists publish, keep-alive = if_new+RefreshTTLOnSuppress, if_new without refresh, remove) at chosen offsets inside/just after the window on keys the sweep has just collected; the main goroutine issues 20-55 steps: the same operations now, or aimed at a key's deadline (-2..+2 ms, and inside the 1 s sweep latency), sleeps, and quiescent checkpoints. After a write-free settle of maxTTL+margin everything must have expired. " +
-			"Oracle from the recorded handler calls, operation results, state and stream: every unsuppressed operation broadcast exactly once and suppressed ones never; per key removals alternate with publications (no second removal); an expiry removal never comes before publish+TTL nor before the deadline extended by timely keep-alives, and not later than the last possible deadline + 3.1 s; at quiescent instants state == fold of broadcasts and (recoverable) stream == broadcasts with contiguous offsets; after the settle the state is empty and every publication ended exactly once. " +
+			"Oracle from the recorded handler calls, operation results, state and stream: every unsuppressed operation broadcast exactly once and suppressed ones never; per key removals alternate with publications (no second removal); an expiry removal never comes before publish+TTL nor before the deadline extended by acknowledged keep-alives (timely ones, and late ones that still found the key), and not later than the last possible deadline + 3.1 s; at quiescent instants state == fold of broadcasts and (recoverable) stream == broadcasts with contiguous offsets; after the settle the state is empty and every publication ended exactly once. " +
 			"Non-trivial = completed case; signature = counts of (expired, refreshed, keep-alive/republish/remove while parked).",
 		Assumptions: []string{
 			"virtual time (synctest) replaces the injectable clock; the hook sleeps with no lock held",
-			"late margin = 1 s tick + 2 x 0.9 s parking + 0.3 s; a keep-alive or publish that lands after the deadline but before the sweep removed the key may legitimately resurrect it (counted, both outcomes accepted)",
+			"late margin = 1 s tick + 2 x 0.9 s parking + 0.3 s; a keep-alive or publish that lands after the deadline but before the sweep removed the key may or may not find the key still there (both accepted); but a keep-alive the broker answered with key_exists is an acknowledged refresh: from then on the key must live until that keep-alive's own deadline",
 			"operations at exactly the same virtual millisecond as the publish or the removal they could affect are not used for the lower bound (their order is not observable)",
 			"StreamTTL 10 min and the auto-derived MetaTTL are never crossed (channel metadata expiry is out of scope); StreamSize is larger than any case so stream == all broadcasts",
 			"only the in-memory map broker is covered",
 		},
 		Cases:  map[string]int{"quick": 2000, "thorough": 20000},
 		Bubble: true,
-		RequireCounters: []string{"op_between_phases", "op_between_phases_pub", "op_between_phases_ka", "op_between_phases_rm", "refreshed_before_deadline", "expired_once",
+		RequireCounters: []string{"keepalive_acknowledged_between_phases", "op_between_phases", "op_between_phases_pub", "op_between_phases_ka", "op_between_phases_rm", "refreshed_before_deadline", "expired_once",
 			"removed_between_phases", "republished_between_phases_survived_until_own_deadline", "op_just_before_deadline", "op_just_after_deadline", "op_between_deadline_and_sweep",
 			"quiescent_checkpoints", "sweeps_parked_with_candidates"},
 		Run: runCase,
